@@ -345,6 +345,10 @@ func (c *checkSchema) collectAllowedJsonTypes(node ischema.Node, ss map[string]i
 			c.foundTypeNames[typeName] = struct{}{}
 		}
 		c.collectAllowedJsonTypes(getType(typeName, c.rootSchema, ss).RootNode(), ss) // can panic
+		// Only the types on the current path matter: the same type can be
+		// reached twice without any recursion (for example from two items of
+		// the "or" rule).
+		delete(c.foundTypeNames, typeName)
 	}
 }
 
